@@ -58,7 +58,13 @@ var c13Patterns = []string{"black-hole", "late-reply", "garbage", "temporary-cod
 	"duplicate",
 	// a healthy BMC whose cipher-suite record data fills every one of the 64
 	// list indexes with a full chunk (only meaningful for the discovery calls)
-	"cipher-suite-list-never-ends"}
+	"cipher-suite-list-never-ends",
+	// an authenticated-flag wrapper followed by 300 bytes of 0xFF (the integrity pad byte)
+	"garbage-long-pad-run",
+	// handshake replies (and response bodies) one byte short
+	"truncated-by-one",
+	// a healthy BMC whose cipher-suite record data is followed by zero padding
+	"cipher-suite-list-zero-padded"}
 
 // c13LongSuites: 2048 bytes of valid cipher-suite records, suite 3 among them.
 func c13LongSuites() []byte {
@@ -85,6 +91,33 @@ func c13Answer(p string) env.Answer {
 		a.Pre = func(t *env.Transport) {
 			if len(t.BMC.Cfg.CipherSuiteData) < 2048 {
 				t.BMC.Cfg.CipherSuiteData = c13LongSuites()
+			}
+		}
+		return a
+	case "garbage-long-pad-run":
+		return env.Raw("garbage-long-pad-run", func(t *env.Transport, rx *ref.Rx) []byte {
+			return cat([]byte{0x06, 0x00, 0xFF, 0x07, 0x06, 0x40, 1, 0, 0, 0, 2, 0, 0, 0, 4, 0, 9, 9, 9, 9}, pattern(300, 0xFF, 0), []byte{0x02, 0x07}, pattern(12, 0x11, 1))
+		})
+	case "truncated-by-one":
+		return env.Raw("truncated-by-one", func(t *env.Transport, rx *ref.Rx) []byte {
+			if rx == nil {
+				return nil
+			}
+			if rx.ReplyPayload != nil && len(rx.ReplyPayload) > 0 {
+				return ref.BuildPacket(rx.ReplyPType, false, 0, 0, rx.ReplyPayload[:len(rx.ReplyPayload)-1], nil)
+			}
+			if rx.Msg != nil && len(rx.Body) > 0 {
+				return t.BMC.Respond(rx, rx.CC, rx.Body[:len(rx.Body)-1])
+			}
+			return nil
+		})
+	case "cipher-suite-list-zero-padded":
+		a := env.Honest()
+		a.Name = "cipher-suite-list-zero-padded"
+		a.Pre = func(t *env.Transport) {
+			d := t.BMC.Cfg.CipherSuiteData
+			if len(d) == 0 || d[len(d)-1] != 0 {
+				t.BMC.Cfg.CipherSuiteData = append(append([]byte{}, d...), 0, 0, 0)
 			}
 		}
 		return a
@@ -304,8 +337,13 @@ func c13Tolerates(c c13Case) bool {
 	if c.Pattern == "repository-keeps-changing" && c.Call != "retrieve-sdrs" {
 		return true // every reply is the honest one
 	}
-	if c.Pattern == "cipher-suite-list-never-ends" {
-		return true // every reply is a valid one
+	if c.Pattern == "cipher-suite-list-never-ends" || c.Pattern == "cipher-suite-list-zero-padded" {
+		return true // every reply is a valid one (whether the list is accepted is not C13's business)
+	}
+	if c.Pattern == "truncated-by-one" && (strings.HasPrefix(c.Call, "session-close") || c.Call == "session-command" || c.Call == "sessionless-command" || c.Call == "retrieve-sdrs" || c.Call == "dcmi-sensor-info" || c.Call == "retrieve-cipher-suites") {
+		// one byte less of a response body may still be a complete body (optional
+		// tails, list chunks); only handshake replies have exact lengths
+		return true
 	}
 	// Close Session has no response body: "truncated" is the honest reply
 	return c.Pattern == "truncated" && strings.HasPrefix(c.Call, "session-close")
@@ -400,6 +438,11 @@ func (u *udpBMC) serve() {
 		if faulty && u.c.Pattern == "cipher-suite-list-never-ends" && len(u.bmc.Cfg.CipherSuiteData) < 2048 {
 			u.bmc.Cfg.CipherSuiteData = c13LongSuites()
 		}
+		if faulty && u.c.Pattern == "cipher-suite-list-zero-padded" {
+			if d := u.bmc.Cfg.CipherSuiteData; len(d) == 0 || d[len(d)-1] != 0 {
+				u.bmc.Cfg.CipherSuiteData = append(append([]byte{}, d...), 0, 0, 0)
+			}
+		}
 		if faulty && u.c.Pattern == "repository-keeps-changing" && u.bmc.Cfg.Repo != nil {
 			u.bmc.Cfg.Repo.KeepReservation = true
 			u.bmc.Cfg.Repo.LastAdd++
@@ -413,8 +456,16 @@ func (u *udpBMC) serve() {
 			switch u.c.Pattern {
 			case "repository-keeps-changing":
 				reply = u.bmc.Honest(rx)
-			case "cipher-suite-list-never-ends":
+			case "cipher-suite-list-never-ends", "cipher-suite-list-zero-padded":
 				reply = u.bmc.Honest(rx)
+			case "garbage-long-pad-run":
+				reply = cat([]byte{0x06, 0x00, 0xFF, 0x07, 0x06, 0x40, 1, 0, 0, 0, 2, 0, 0, 0, 4, 0, 9, 9, 9, 9}, pattern(300, 0xFF, 0), []byte{0x02, 0x07}, pattern(12, 0x11, 1))
+			case "truncated-by-one":
+				if rx.ReplyPayload != nil && len(rx.ReplyPayload) > 0 {
+					reply = ref.BuildPacket(rx.ReplyPType, false, 0, 0, rx.ReplyPayload[:len(rx.ReplyPayload)-1], nil)
+				} else if rx.Msg != nil && len(rx.Body) > 0 {
+					reply = u.bmc.Respond(rx, rx.CC, rx.Body[:len(rx.Body)-1])
+				}
 			case "duplicate":
 				reply = u.bmc.Honest(rx)
 				if reply != nil {
